@@ -179,6 +179,7 @@ type Query struct {
 	Facts  []*Term
 	Goal   *Term
 	Values []*Term
+	Cover  bool
 }
 
 // symbolsOf collects variable and function names of a term.
@@ -225,74 +226,242 @@ func pruneFacts(facts []*Term, goal *Term) ([]*Term, bool) {
 	return out, dropped
 }
 
-// solve races the portfolio. expectSat: cover queries (a sat answer is the "good" one; no need for all solvers).
-func solve(q Query, timeout time.Duration) SolverRes {
-	math, bits, hasFP, quant := featureScan(append(append([]*Term{}, q.Facts...), q.Goal))
-	type job struct {
-		sp     solverSpec
-		mode   Mode
-		script string
+// coiFacts keeps the facts connected to the goal through shared symbols (transitively): the cone of influence.
+// Dropping hypotheses is sound for unsat answers.
+func coiFacts(facts []*Term, goal *Term) ([]*Term, bool) {
+	syms := map[string]bool{}
+	symbolsOf(goal, syms, map[*Term]bool{})
+	fsyms := make([]map[string]bool, len(facts))
+	for i, f := range facts {
+		m := map[string]bool{}
+		symbolsOf(f, m, map[*Term]bool{})
+		fsyms[i] = m
 	}
-	var modes []Mode
-	switch {
-	case math:
-		modes = []Mode{ModeInt}
-	case bits && !quant:
-		modes = []Mode{ModeBV, ModeInt}
-	case quant && !bits:
-		modes = []Mode{ModeInt}
-	default:
-		modes = []Mode{ModeInt, ModeBV}
-	}
-	if hasFP && !quant {
-		modes = append(modes, ModeReal)
-	}
-	scripts := map[string]string{}
-	var firstErr error
-	for _, m := range modes {
-		for _, cv := range []bool{false, true} {
-			s, err := buildScript(m, q.Facts, q.Goal, q.Values, cv)
-			if err != nil {
-				firstErr = err
+	in := make([]bool, len(facts))
+	for changed := true; changed; {
+		changed = false
+		for i := range facts {
+			if in[i] {
 				continue
 			}
-			scripts[fmt.Sprintf("%s/%v", m, cv)] = s
-		}
-	}
-	if len(scripts) == 0 {
-		return SolverRes{Status: "error", Output: fmt.Sprint(firstErr)}
-	}
-	mkJobs := func(stage int) []job {
-		var js []job
-		for mi, m := range modes {
-			for si, sp := range solvers {
-				s, ok := scripts[fmt.Sprintf("%s/%v", m, sp.cvc5)]
-				if !ok {
-					continue
+			hit := false
+			for n := range fsyms[i] {
+				if syms[n] && n != "alloc0" {
+					hit = true
+					break
 				}
-				first := (mi == 0 && si == 0) || (mi == 1 && si == 1) || (len(modes) == 1 && si == 1) || (m == ModeReal && si == 0)
-				if stage == 1 && !first {
-					continue
+			}
+			if len(fsyms[i]) == 0 {
+				hit = true
+			}
+			if hit {
+				in[i] = true
+				changed = true
+				for n := range fsyms[i] {
+					syms[n] = true
 				}
-				js = append(js, job{sp, m, s})
 			}
 		}
-		return js
 	}
-	// pruned variant: raced alongside in every stage (unsat answers only)
-	var prunedJobs []job
-	if quant {
-		if pf, dropped := pruneFacts(q.Facts, q.Goal); dropped {
-			for _, cv := range []bool{false, true} {
-				if ps, err := buildScript(ModeInt, pf, q.Goal, nil, cv); err == nil {
-					for _, sp := range solvers {
-						if sp.cvc5 == cv {
-							prunedJobs = append(prunedJobs, job{sp, ModePruned, ps})
-						}
+	var out []*Term
+	dropped := false
+	for i, f := range facts {
+		if in[i] {
+			out = append(out, f)
+		} else {
+			dropped = true
+		}
+	}
+	return out, dropped
+}
+
+// solve races a portfolio of (hypothesis selection) x (encoding) x (solver). Every variant is sound for "unsat":
+// dropping hypotheses only weakens what is assumed. A "sat" answer counts only for the full fact set in an exact encoding.
+func solve(q Query, timeout time.Duration) SolverRes {
+	// contextual simplification: for a goal H => G the query is facts /\ H /\ not G; the literals of H simplify every fact
+	if !q.Cover && q.Goal.Op == "=>" && len(q.Values) == 0 {
+		lits := map[*Term]bool{}
+		unitLits([]*Term{q.Goal.Args[0]}, lits)
+		if len(lits) > 0 {
+			var nf []*Term
+			for _, f := range q.Facts {
+				g := simplifyUnder(f, lits)
+				if !g.isTrue() {
+					nf = append(nf, g)
+				}
+			}
+			nf = append(nf, q.Goal.Args[0])
+			q = Query{Facts: nf, Goal: simplifyUnder(q.Goal.Args[1], lits), Cover: q.Cover}
+		}
+	}
+	_, bits, hasFP, quant := featureScan(append(append([]*Term{}, q.Facts...), q.Goal))
+	goalMath, _, _, _ := featureScan([]*Term{q.Goal})
+	noMath := func(fs []*Term) []*Term {
+		var out []*Term
+		for _, f := range fs {
+			if m, _, _, _ := featureScan([]*Term{f}); !m {
+				out = append(out, f)
+			}
+		}
+		return out
+	}
+	type factSet struct {
+		label string
+		facts []*Term
+		full  bool
+	}
+	sets := []factSet{{"full", q.Facts, true}}
+	if !q.Cover {
+		if cf, dropped := coiFacts(q.Facts, q.Goal); dropped {
+			sets = append(sets, factSet{"coi", cf, false})
+		}
+		if quant {
+			if pf, dropped := pruneFacts(q.Facts, q.Goal); dropped {
+				sets = append(sets, factSet{"prq", pf, false})
+			}
+		}
+		if hasFP {
+			var nd []*Term
+			droppedDef := false
+			for _, f := range q.Facts {
+				if defFacts[f] {
+					droppedDef = true
+					continue
+				}
+				nd = append(nd, f)
+			}
+			// quantifier-free, without the definitions of float locals: lets the solvers use their bit-blasting tactics
+			var qf []*Term
+			goalHasMathSort := hasSort(q.Goal, SMath)
+			for _, f := range nd {
+				if _, _, _, qq := featureScan([]*Term{f}); qq {
+					continue
+				}
+				// facts about references / allocation (integer sort, uninterpreted functions) keep the solvers out of
+				// their pure bit-vector/float tactics; a float goal that does not mention them does not need them
+				if !goalHasMathSort && (hasSort(f, SMath) || hasSort(f, SUn)) {
+					continue
+				}
+				qf = append(qf, f)
+			}
+			if droppedDef || len(qf) != len(q.Facts) {
+				cf, _ := coiFacts(qf, q.Goal)
+				sets = append(sets, factSet{"nodef", cf, false})
+			}
+			// strict: only the facts that talk exclusively about symbols of the goal
+			gs := map[string]bool{}
+			symbolsOf(q.Goal, gs, map[*Term]bool{})
+			var strict []*Term
+			for _, f := range qf {
+				fsy := map[string]bool{}
+				symbolsOf(f, fsy, map[*Term]bool{})
+				sub := len(fsy) > 0
+				for n := range fsy {
+					if !gs[n] {
+						sub = false
+						break
 					}
 				}
+				if sub {
+					strict = append(strict, f)
+				}
+			}
+			if len(strict) < len(qf) {
+				sets = append(sets, factSet{"strict", strict, false})
 			}
 		}
+	}
+	type job struct {
+		sp     solverSpec
+		label  string
+		mode   Mode
+		script string
+		exact  bool // sat answers are counterexamples
+		prio   int
+	}
+	var jobs []job
+	seenScript := map[string]bool{}
+	add := func(fsLabel string, facts []*Term, full bool, mode Mode, prio int) {
+		fs := facts
+		exact := full && mode != ModeReal
+		if mode == ModeBV {
+			if goalMath {
+				return
+			}
+			nf := noMath(facts)
+			if len(nf) != len(facts) {
+				exact = false
+			}
+			fs = nf
+		}
+		for _, cv := range []bool{false, true} {
+			sc, err := buildScript(mode, fs, q.Goal, q.Values, cv)
+			if err != nil {
+				continue
+			}
+			for si, sp := range solvers {
+				if sp.cvc5 != cv {
+					continue
+				}
+				key := sp.name + "|" + sc
+				if seenScript[key] {
+					continue
+				}
+				seenScript[key] = true
+				p := prio
+				if si == 1 && !hasFP {
+					p++ // z3 4.8 joins in the second stage (except for float goals, where it is often the fastest)
+				}
+				jobs = append(jobs, job{sp, fsLabel + "-" + mode.String(), mode, sc, exact, p})
+			}
+		}
+	}
+	// job selection (prio 0 = first stage, 1 = second stage); everything else is left out to keep the load bounded
+	for _, fs := range sets {
+		switch {
+		case hasFP && !q.Cover:
+			// float goals are expensive: a small fixed set of jobs, all in one stage
+			switch fs.label {
+			case "nodef":
+				add(fs.label, fs.facts, fs.full, ModeBV, 0)
+				add(fs.label, fs.facts, fs.full, ModeReal, 0)
+			case "strict":
+				add(fs.label, fs.facts, fs.full, ModeBV, 0)
+			case "full":
+				if len(sets) == 1 {
+					add(fs.label, fs.facts, fs.full, ModeBV, 0)
+					add(fs.label, fs.facts, fs.full, ModeReal, 0)
+					add(fs.label, fs.facts, fs.full, ModeInt, 0)
+				} else {
+					add(fs.label, fs.facts, fs.full, ModeBV, 2)
+				}
+			case "coi":
+				haveNodef := false
+				for _, x := range sets {
+					if x.label == "nodef" {
+						haveNodef = true
+					}
+				}
+				if !haveNodef {
+					add(fs.label, fs.facts, fs.full, ModeBV, 0)
+					add(fs.label, fs.facts, fs.full, ModeReal, 0)
+				} else {
+					add(fs.label, fs.facts, fs.full, ModeReal, 2)
+				}
+			}
+		default:
+			base := 1
+			if fs.label == "coi" || fs.label == "prq" || len(sets) == 1 {
+				base = 0
+			}
+			add(fs.label, fs.facts, fs.full, ModeInt, base)
+			if bits || !quant {
+				add(fs.label, fs.facts, fs.full, ModeBV, base)
+			}
+		}
+	}
+	if len(jobs) == 0 {
+		return SolverRes{Status: "error", Output: "no expressible encoding"}
 	}
 	var attempts []string
 	race := func(js []job, to time.Duration) *SolverRes {
@@ -304,19 +473,19 @@ func solve(q Query, timeout time.Duration) SolverRes {
 			wg.Add(1)
 			go func(j job) {
 				defer wg.Done()
-				ch <- runOne(ctx, j.sp, j.mode, j.script, to)
+				r := runOne(ctx, j.sp, j.mode, j.script, to)
+				r.Mode = j.label
+				if r.Status == "sat" && !j.exact {
+					r.Status = "unknown"
+				}
+				ch <- r
 			}(j)
 		}
 		go func() { wg.Wait(); close(ch) }()
 		var decided *SolverRes
 		for r := range ch {
-			attempts = append(attempts, fmt.Sprintf("%s/%s:%s:%.2fs", r.Solver, r.Mode, r.Status, r.Time))
-			if r.Status == "sat" && r.Mode == "pruned" {
-				r.Status = "unknown" // fewer hypotheses: a model of the pruned query is not a counterexample
-			}
-			if r.Status == "sat" && r.Mode == "real" {
-				// the relaxed float model over-approximates: its models are not counterexamples
-				r.Status = "unknown"
+			if r.Status != "cancelled" {
+				attempts = append(attempts, fmt.Sprintf("%s/%s:%s:%.2fs:%s", r.Solver, r.Mode, r.Status, r.Time, filepath.Base(r.Script)))
 			}
 			if decided == nil && (r.Status == "unsat" || r.Status == "sat") {
 				rr := r
@@ -327,16 +496,54 @@ func solve(q Query, timeout time.Duration) SolverRes {
 		return decided
 	}
 	st1 := 3 * time.Second
+	if hasFP {
+		st1 = timeout
+	}
 	if timeout < st1 {
 		st1 = timeout
 	}
-	if d := race(append(mkJobs(1), prunedJobs...), st1); d != nil {
+	var first, rest []job
+	for _, j := range jobs {
+		if j.prio == 0 {
+			first = append(first, j)
+		} else {
+			rest = append(rest, j)
+		}
+	}
+	if d := race(first, st1); d != nil {
 		d.Attempt = attempts
 		return *d
 	}
-	if d := race(append(mkJobs(2), prunedJobs...), timeout); d != nil {
-		d.Attempt = attempts
-		return *d
+	second := jobs
+	if hasFP {
+		second = rest // the first-stage jobs already ran with the full budget
+	}
+	if len(second) > 0 {
+		if d := race(second, timeout); d != nil {
+			d.Attempt = attempts
+			return *d
+		}
 	}
 	return SolverRes{Status: "unknown", Attempt: attempts, Output: strings.Join(attempts, " ")}
+}
+
+func hasSort(t *Term, k SortKind) bool {
+	seen := map[*Term]bool{}
+	var rec func(t *Term) bool
+	rec = func(t *Term) bool {
+		if seen[t] {
+			return false
+		}
+		seen[t] = true
+		if t.Sort.K == k || t.Op == "app" && k == SUn {
+			return true
+		}
+		for _, a := range t.Args {
+			if rec(a) {
+				return true
+			}
+		}
+		return false
+	}
+	return rec(t)
 }
